@@ -5131,6 +5131,11 @@ class DfaCompileCtx:
             if next_target is None or next_target.is_fallthrough:
                 continue
 
+            # the replacement consumes what the transition matches: the end of input is not a byte to consume
+            # (an inverted character class lists End among the symbols it rejects)
+            if DFTransition.End in transition.on_values:
+                continue
+
             # Are there actions? If so, does this violate the threshold
             if len(next_target.actions) > 0:
                 max_count = ProgramData.option(ProgramOption.MAX_SHORTCIRCUIT_FALLTHROUGH) - ProgramData.option(ProgramOption.MAX_SHORTCIRCUIT_ACTION_PENALTY)*(len(next_target.actions)-1)
